@@ -86,6 +86,9 @@ type SchedCfg struct {
 	// StallSites: when set, only parks at these yield sites stall (and always do); parks at other
 	// sites are pure reorderings. Places the slow moments inside one kind of in-flight operation.
 	StallSites []string `json:"stall_sites,omitempty"`
+	// StallUnknown: goroutines that the harness cannot attribute to an instance may stall too (their
+	// stalls are not accounted to any instance: only for plans judged by oracles without timing bounds)
+	StallUnknown bool `json:"stall_unknown,omitempty"`
 	// Free: free-run mode (C20): no central scheduling, store operations applied by the
 	// calling goroutine, observers off; used under the race detector.
 	Free bool `json:"free,omitempty"`
